@@ -100,6 +100,13 @@ pub fn c02_configs(tier: Tier) -> Vec<(Cfg, usize)> {
     c.fin_rot = 2;
     c.root = two_drawn();
     v.push((c, d));
+    // renderings exactly two and three terminal widths long (the last row ends at the right edge)
+    let mut c = Cfg::base("c02-exact-multiples", 6, 40);
+    c.root = pre_logs(1, two_drawn());
+    c.inserts = false;
+    c.suspend = false;
+    c.msgs = vec!["q".repeat(10), "q".repeat(16)];
+    v.push((c, if tier == Tier::Quick { 3 } else { 4 }));
     if tier == Tier::Thorough {
         let mut c = Cfg::base("c02-empty-deep", 20, 40);
         c.suspend = false;
@@ -383,7 +390,31 @@ pub fn c19_configs(tier: Tier) -> Vec<(Cfg, usize)> {
         c.clear = false;
         c.root = vec![Op::Add, Op::Add, Op::Add, Op::Tick(0), Op::Tick(1), Op::Tick(2)];
         c.msgs = vec![];
-        v.push((c, if tier == Tier::Quick { 5 } else { 6 }));
+        v.push((c, if tier == Tier::Quick { if h == 1 { 4 } else { 5 } } else { 6 }));
+    }
+    // the same with the rest of the alphabet: removal, clear, suspend, bar-level println, bottom alignment,
+    // two-line bars
+    for (k, (w, h)) in [(6usize, 2usize), (4, 3), (6, 3), (6, 2)].into_iter().enumerate() {
+        let mut c = Cfg::base("c19-overflow-finished-x", w, h);
+        c.may_omit = true;
+        c.max_bars = 3;
+        c.inserts = k == 1;
+        c.align = k == 2;
+        c.two_line = k == 3;
+        c.root = vec![Op::Add, Op::Add, Op::Add, Op::Tick(0), Op::Tick(1), Op::Tick(2)];
+        c.msgs = vec![];
+        v.push((c, if tier == Tier::Quick { 3 } else { 4 }));
+    }
+    // move-cursor mode (redraws overwrite in place): clear/suspend still take every row off the screen,
+    // wrapped ones included; the set of bars stays the same, as the documentation of the mode demands
+    for (w, h) in [(3usize, 6usize), (6, 8)] {
+        let mut c = Cfg::base("c19-move-cursor", w, h);
+        c.move_cursor = true;
+        c.max_bars = 2;
+        c.msgs = vec!["q".repeat(w)];
+        c.root = vec![Op::Add, Op::Add, Op::Msg(0, 0), Op::Tick(1)];
+        c.only = Some(|o| matches!(o, Op::Tick(_) | Op::Inc(_) | Op::MpClear | Op::MpSuspend | Op::MpSuspendEmpty | Op::BarSuspend(_) | Op::Idle));
+        v.push((c, if tier == Tier::Quick { 4 } else { 6 }));
     }
     // rate-limited target with the limiter exhausted on a short terminal: removing a bar makes room for an
     // omitted one at once; a finished bar whose text changes under the limiter is reaped by its real rows
@@ -430,7 +461,14 @@ pub fn c19_configs(tier: Tier) -> Vec<(Cfg, usize)> {
 }
 
 fn run_cfgs(cfgs: Vec<(Cfg, usize)>, shard: Shard, stats: &mut Stats) {
+    // development aid: VCHECK_ONLY=<substring> restricts a run to the configurations whose name contains it
+    let only = std::env::var("VCHECK_ONLY").ok();
     for (cfg, depth) in cfgs {
+        if let Some(o) = &only {
+            if !cfg.name.contains(o.as_str()) {
+                continue;
+            }
+        }
         let mut dfs = Dfs::new(&cfg, depth, shard, 2);
         dfs.explore(stats);
     }
@@ -456,19 +494,23 @@ fn meta_for(cfgs: Vec<(Cfg, usize)>, what: &str) -> Meta {
 }
 
 pub fn c02_run(t: Tier, s: Shard, st: &mut Stats) {
-    run_cfgs(c02_configs(t), s, st)
+    run_cfgs(c02_configs(t), s, st);
+    // members across a change of the draw target (two terminals)
+    crate::c03x::run(t, s, st, crate::c03x::Clause::Bars);
 }
 pub fn c03_run(t: Tier, s: Shard, st: &mut Stats) {
     run_cfgs(c03_configs(t), s, st);
     // printed lines under a rate-limited standalone target
     crate::c04s::run(t, s, st);
     // printed lines across a change of the draw target (two terminals)
-    crate::c03x::run(t, s, st);
+    crate::c03x::run(t, s, st, crate::c03x::Clause::Logs);
 }
 pub fn c04_run(t: Tier, s: Shard, st: &mut Stats) {
     run_cfgs(c04_configs(t), s, st);
     // standalone bars on a rate-limited target, incl. iterator-driven completion
     crate::c04s::run(t, s, st);
+    // visibly finished bars across a change of the draw target (two terminals)
+    crate::c03x::run(t, s, st, crate::c03x::Clause::Finished);
 }
 pub fn c19_run(t: Tier, s: Shard, st: &mut Stats) {
     run_cfgs(c19_configs(t), s, st)
@@ -514,16 +556,22 @@ pub fn replay_any(v: &Value, id: &str) -> i32 {
 }
 
 pub fn c02_replay(v: &Value) -> i32 {
+    if let Some(c) = crate::c03x::replay(v, "C02") {
+        return c;
+    }
     replay_any(v, "C02")
 }
 pub fn c03_replay(v: &Value) -> i32 {
-    if let Some(c) = crate::c03x::replay(v) {
+    if let Some(c) = crate::c03x::replay(v, "C03") {
         return c;
     }
     replay_any(v, "C03")
 }
 pub fn c04_replay(v: &Value) -> i32 {
     if let Some(c) = crate::c04s::replay(v) {
+        return c;
+    }
+    if let Some(c) = crate::c03x::replay(v, "C04") {
         return c;
     }
     replay_any(v, "C04")
